@@ -19,7 +19,7 @@ class Prop(PropBase):
     lean_targets = ["PbProps.C04"]
     theorems = ["Pb.C04." + t for t in ("C04_modulation", "C04_tone", "C04_fftshift_index", "C04_zero_bins",
                                         "C04_full_band", "C04_every_element", "C04_roundtrip", "C04_source_loop")]
-    trusted_base = ["PbModel/Shift.lean (hand model)", "numpy.fft complex128 oracle; NumPy broadcasting"]
+    trusted_base = ["pbverif/extract.py: symbolic evaluation of the method bodies into PbModel/Gen/Shift.lean (trusted to render the source expressions faithfully; tied to the hand model by the C04_source_* theorem)", "PbModel/Shift.lean (hand model)", "numpy.fft complex128 oracle; NumPy broadcasting"]
     assumptions = ["the boundary bin is decided on the double ft*N exactly as the code computes it"]
     rule = ("BasebandSignal/DualPolarizationSignal, N in {1,2,3,5,8,16,17,31,64}, complex64/128, nchan 1-3, extra dims; shift "
             "scalar / per-channel / per-pol / (nchan,1) / (1,npol) / full; |df| up to 3 bandwidths, whole and fractional bins, both "
